@@ -231,18 +231,18 @@ pub fn cfg_for(check: &str) -> Option<CheckCfg> {
     ];
     let c = |rq, rt, level, rule| Some(CheckCfg { runs_quick: rq, runs_thorough: rt, level, rule, real: REAL_ALL, stub: STUB_ALL, assumptions: ASSUME });
     match check {
-        "C02" => c(96, 1200, "fault_enumeration", "one evaluation = one final wire message delivered to the real verifier and judged by the must-reject oracle (JWT string not in signed_by[key the resolver returned] => not Ok). Per run: every character position of the signature x {substitute, neighbour-substitute, delete, insert}, seeded positions + boundaries of header and payload (thorough: every position), plus seeded splices, re-encodings, alg rewrites, resolver faults. distinct_nontrivial = distinct final wire messages (hash of wire string + session) on which >= 1 fault fired and whose unfaulted control was accepted."),
-        "C03" => c(160, 2400, "fault_enumeration", "one evaluation = one disclosure list L delivered with a genuine issuer-signed JWT and compared with view(payload, L) of the reference model (Err allowed). Per run: every subset of the genuine disclosures for credentials with <= 6 (thorough <= 10) disclosures, seeded subsets otherwise, plus seeded permutations, duplicates, corruptions, re-serialisations, forgeries (2-/3-element, visible and new names), foreign and garbage disclosures. distinct_nontrivial = distinct final wire messages with >= 1 fired fault whose control was accepted."),
-        "C04" => c(96, 1200, "fault_enumeration", "one evaluation = one final (jwt, disclosures, kb) delivered to the real verifier with a session (aud*, nonce*) and judged by the legitimacy predicate (kb made by the cnf key, typ, aud, nonce, sd_hash over exactly this list) or by the differential must-accept on the honest presentation. Per run: every character position of the KB-JWT signature, seeded positions of its header/payload (thorough: all), replay across presentations/credentials/holders, re-signing, field edits, disclosure changes after binding, session mismatches. distinct_nontrivial = distinct final wire messages (+session) with >= 1 fired fault whose control was accepted."),
-        "C08" => c(120, 1600, "fault_enumeration", "one evaluation = one byzantine-issuer credential (validly signed, explicit payload/disclosures with one or two deviations from a well-formed one) presented with a subset of its disclosures and compared with the reference model's three-valued expectation (MUST-reject / result R / don't-care). Single deviations are enumerated over all applicable sites of the run's credential. distinct_nontrivial = distinct final wire messages of deviated credentials."),
-        "C10" => c(120, 1600, "exploration", "one evaluation = one delivery of a (jwt, disclosures, kb) triple to a verifier replica; every final message of the honest, C02, C03, C04 and C08 fault profiles that is expressible in both forms goes to the Compact and to the JSON replica at the same simulated instant with the same session and directory; decisions and claims must agree. Also holder side: credential transcoded, two real holders, same selection. distinct_nontrivial = distinct final wire messages with >= 1 fired fault whose control was accepted, plus distinct (credential, selection) pairs compared on the holder side."),
-        "C07" => c(160, 2400, "exploration", "one evaluation = one call of a public entry point (issuer, holder constructor, create_presentation, verifier) under catch_unwind on a node thread with an 8 MiB stack, worker death (abort / stack overflow) and a 60 s watchdog observed by the supervisor. Inputs: every message fault of the other profiles at wire level, wire truncation at every prefix (thorough), JSON type flips at every envelope member, byzantine-issuer structures, hostile selections / claims / paths. distinct_nontrivial = distinct final inputs (hash) handed to an entry point after >= 1 fault or hostile mutation."),
-        "C09" => c(200, 3000, "exploration", "one evaluation = one verification at a verifier-local simulated instant Tv of a credential with exp/nbf set relative to the issuer's simulated clock; oracle on the first clock value the verifier read. distinct_nontrivial = distinct (credential shape, Tv bucket relative to exp/nbf, verdict) triples outside the unasserted +-120 s band."),
-        "C11" => c(160, 2400, "exploration", "one evaluation = one call k of a history on a long-lived instance, re-executed on a fresh instance under rewound entropy and frozen clock and compared byte for byte. distinct_nontrivial = distinct histories (hash of the operation sequence) of length >= 2."),
-        "C15" => c(160, 2400, "exploration", "one evaluation = one relay hop compared with the direct selection. distinct_nontrivial = distinct (credential, selection chain) histories with >= 2 hops."),
-        "C12" => c(48, 600, "exploration", "one evaluation = one issued credential inspected structurally (decoys per object, uniqueness, form) or one _sd list judged for order leaks; distinct_nontrivial = distinct worlds (entropy seed x claims) that produced >= 2 credentials with decoys."),
-        "C14" => c(32, 400, "exploration", "one evaluation = one salt or decoy digest checked (length, pairwise distinctness, digest binding); distinct_nontrivial = distinct (entropy seed, schedule hash) worlds that produced >= 2 credentials on >= 1 thread."),
-        "C16" => c(120, 1600, "exploration", "one evaluation = one issuance in the deterministic-salt build checked for queue conservation, byte-identical re-execution and exact value round trip; distinct_nontrivial = distinct histories (hash of claims, strategy and salt queue) of length >= 2 issuances or with >= 1 nasty string."),
+        "C02" => c(1500, 8000, "fault_enumeration", "one evaluation = one final wire message delivered to the real verifier and judged by the must-reject oracle (JWT string not in signed_by[key the resolver returned] => not Ok). Per run: every character position of the signature x {substitute, neighbour-substitute, delete, insert}, seeded positions + boundaries of header and payload (thorough: every position), plus seeded splices, re-encodings, alg rewrites, resolver faults. distinct_nontrivial = distinct final wire messages (hash of wire string + session) on which >= 1 fault fired and whose unfaulted control was accepted."),
+        "C03" => c(6000, 24000, "fault_enumeration", "one evaluation = one disclosure list L delivered with a genuine issuer-signed JWT and compared with view(payload, L) of the reference model (Err allowed). Per run: every subset of the genuine disclosures for credentials with <= 6 (thorough <= 10) disclosures, seeded subsets otherwise, plus seeded permutations, duplicates, corruptions, re-serialisations, forgeries (2-/3-element, visible and new names), foreign and garbage disclosures. distinct_nontrivial = distinct final wire messages with >= 1 fired fault whose control was accepted."),
+        "C04" => c(800, 6000, "fault_enumeration", "one evaluation = one final (jwt, disclosures, kb) delivered to the real verifier with a session (aud*, nonce*) and judged by the legitimacy predicate (kb made by the cnf key, typ, aud, nonce, sd_hash over exactly this list) or by the differential must-accept on the honest presentation. Per run: every character position of the KB-JWT signature, seeded positions of its header/payload (thorough: all), replay across presentations/credentials/holders, re-signing, field edits, disclosure changes after binding, session mismatches. distinct_nontrivial = distinct final wire messages (+session) with >= 1 fired fault whose control was accepted."),
+        "C08" => c(5000, 30000, "fault_enumeration", "one evaluation = one byzantine-issuer credential (validly signed, explicit payload/disclosures with one or two deviations from a well-formed one) presented with a subset of its disclosures and compared with the reference model's three-valued expectation (MUST-reject / result R / don't-care). Single deviations are enumerated over all applicable sites of the run's credential. distinct_nontrivial = distinct final wire messages of deviated credentials."),
+        "C10" => c(3000, 24000, "exploration", "one evaluation = one delivery of a (jwt, disclosures, kb) triple to a verifier replica; every final message of the honest, C02, C03, C04 and C08 fault profiles that is expressible in both forms goes to the Compact and to the JSON replica at the same simulated instant with the same session and directory; decisions and claims must agree. Also holder side: credential transcoded, two real holders, same selection. distinct_nontrivial = distinct final wire messages with >= 1 fired fault whose control was accepted, plus distinct (credential, selection) pairs compared on the holder side."),
+        "C07" => c(3000, 16000, "exploration", "one evaluation = one call of a public entry point (issuer, holder constructor, create_presentation, verifier) under catch_unwind on a node thread with an 8 MiB stack, worker death (abort / stack overflow) and a 60 s watchdog observed by the supervisor. Inputs: every message fault of the other profiles at wire level, wire truncation at every prefix (thorough), JSON type flips at every envelope member, byzantine-issuer structures, hostile selections / claims / paths. distinct_nontrivial = distinct final inputs (hash) handed to an entry point after >= 1 fault or hostile mutation."),
+        "C09" => c(20000, 200000, "exploration", "one evaluation = one verification at a verifier-local simulated instant Tv of a credential with exp/nbf set relative to the issuer's simulated clock; oracle on the first clock value the verifier read. distinct_nontrivial = distinct (credential shape, Tv bucket relative to exp/nbf, verdict) triples outside the unasserted +-120 s band."),
+        "C11" => c(20000, 200000, "exploration", "one evaluation = one call k of a history on a long-lived instance, re-executed on a fresh instance under rewound entropy and frozen clock and compared byte for byte. distinct_nontrivial = distinct histories (hash of the operation sequence) of length >= 2."),
+        "C15" => c(20000, 200000, "exploration", "one evaluation = one relay hop compared with the direct selection. distinct_nontrivial = distinct (credential, selection chain) histories with >= 2 hops."),
+        "C12" => c(2000, 6000, "exploration", "one evaluation = one issued credential inspected structurally (decoys per object, uniqueness, form) or one _sd list judged for order leaks; distinct_nontrivial = distinct worlds (entropy seed x claims) that produced >= 2 credentials with decoys."),
+        "C14" => c(2000, 1600, "exploration", "one evaluation = one salt or decoy digest checked (length, pairwise distinctness, digest binding); distinct_nontrivial = distinct (entropy seed, schedule hash) worlds that produced >= 2 credentials on >= 1 thread."),
+        "C16" => c(10000, 100000, "exploration", "one evaluation = one issuance in the deterministic-salt build checked for queue conservation, byte-identical re-execution and exact value round trip; distinct_nontrivial = distinct histories (hash of claims, strategy and salt queue) of length >= 2 issuances or with >= 1 nasty string."),
         _ => None,
     }
 }
